@@ -143,6 +143,8 @@ class Hook:
         if k == 'Call':
             fq = e.get('fn') or ''
             tail = fq.split('::')[-1]
+            if tail in ('quiet_NaN', 'signaling_NaN') and 'numeric_limits' in fq:
+                return [(sp.nan, st)]
             if tail in ('Identity', 'Zero', 'Ones', 'Constant') and 'Eigen::' in fq:
                 out = []
                 for (vals, s2) in rd.evs(e.get('args', []), st, ctx):
@@ -165,6 +167,22 @@ class Hook:
                 return out
         if k == 'MCall' and not e.get('inrepo'):
             name = e.get('m')
+            if name in ('setConstant', 'setZero', 'setOnes', 'fill') and len(e.get('args', [])) <= 1:
+                vw = self.view(rd, e['obj'], st, ctx)
+                if vw is not None:
+                    out = []
+                    for (av, s2) in rd.evs(e.get('args', []), st, ctx):
+                        val = av[0] if av else (sp.Integer(0) if name == 'setZero' else sp.Integer(1))
+                        if not isinstance(val, sp.Basic) or isinstance(val, sp.MatrixBase):
+                            return NotImplemented
+                        path, rows, cols = vw
+                        X = sp.Matrix(s2.fields[path])
+                        for r_ in rows:
+                            for c_ in cols:
+                                X[r_, c_] = val
+                        s2.fields[path] = sp.ImmutableMatrix(X)
+                        out.append((s2.fields[path], s2))
+                    return out
             if name in ('ldlt', 'llt', 'fullPivLu', 'partialPivLu', 'colPivHouseholderQr', 'householderQr', 'fullPivHouseholderQr') and not e.get('args'):
                 return [(('decomposition', ov), s2) for (ov, s2) in rd.ev(e['obj'], st, ctx)]
             out = []
